@@ -369,7 +369,8 @@ Definition looked_of (r : lres) : looked :=
   end.
 
 (* per site: what the analyser observes (through the cache) and what it would observe without *)
-Record site_out := mkOut { o_sid : N; o_cached : mres; o_uncached : mres }.
+(* o_stage: for a call with a use-site actual, the stage of `disambiguate` that selected (statistics) *)
+Record site_out := mkOut { o_sid : N; o_cached : mres; o_uncached : mres; o_stage : option nat }.
 
 Record estate := mkE {
   e_tab : mtable;
@@ -403,20 +404,41 @@ Definition use_ops (t : mtable) (it : item) : list op :=
 
 Definition elab_site (c : cfg) (lt : lits_table) (st : estate) (s : site) : option estate :=
   let d := sdes s in
-  let char_value := match suse s with UVal t => if is_character d then Some t else None | _ => None end in
-  match char_value with
-  | Some t =>
-      (* Literal::Character with a target type: no lookup at all *)
-      let r := char_site_result (lits_find lt t) d in
-      Some (mkE (e_tab st) (e_scope st) (e_trace st) (mkOut (sid s) r r :: e_out st))
-  | None =>
+  match suse s with
+  | UCallX x t =>
+      (* the call name is looked up first, then the name in the actual *)
+      let d' := xarg_des x in
       match lookup (e_scope st) d with
       | None => None
-      | Some (res, s') =>
-          Some (mkE (e_tab st) s' (OLookup d :: e_trace st)
-                    (mkOut (sid s) (site_result d (suse s) (looked_of res))
-                           (site_result d (suse s) (looked_of (lookup_uncached (e_scope st) d)))
-                     :: e_out st))
+      | Some (ro, s1) =>
+          match lookup s1 d' with
+          | None => None
+          | Some (ri, s2) =>
+              let rc := site_result_x d x t (looked_of ro) (looked_of ri) in
+              let ru := site_result_x d x t (looked_of (lookup_uncached (e_scope st) d))
+                                      (looked_of (lookup_uncached (e_scope st) d')) in
+              Some (mkE (e_tab st) s2 (OLookup d' :: OLookup d :: e_trace st)
+                        (mkOut (xarg_sid x) (mkMres (x_inner rc) (x_class rc)) (mkMres (x_inner ru) (x_class ru)) (x_stage rc)
+                         :: mkOut (sid s) (mkMres (x_outer rc) (x_class rc)) (mkMres (x_outer ru) (x_class ru)) (x_stage rc)
+                         :: e_out st))
+          end
+      end
+  | u =>
+      let char_value := match u with UVal t => if is_character d then Some t else None | _ => None end in
+      match char_value with
+      | Some t =>
+          (* Literal::Character with a target type: no lookup at all *)
+          let r := char_site_result (lits_find lt t) d in
+          Some (mkE (e_tab st) (e_scope st) (e_trace st) (mkOut (sid s) r r None :: e_out st))
+      | None =>
+          match lookup (e_scope st) d with
+          | None => None
+          | Some (res, s') =>
+              Some (mkE (e_tab st) s' (OLookup d :: e_trace st)
+                        (mkOut (sid s) (site_result d u (looked_of res))
+                               (site_result d u (looked_of (lookup_uncached (e_scope st) d))) None
+                         :: e_out st))
+          end
       end
   end.
 
